@@ -15,6 +15,7 @@ let op_of_string ret s =
   | ["c"] -> M.Clear
   | ["T"; now; commit] -> M.Trim (mz_of_string now, ret, mz_of_string commit)
   | ["r"] -> M.Reopen
+  | ["R"] -> M.Reopen   (* crash + reopen on a copy of the directory: every appended byte is in the copy, the model's reopen *)
   | ["f"; a] -> M.ReadFwd (mz_of_string a)
   | ["F"] -> M.ReadAll
   | ["b"] -> M.ReadBwd
